@@ -179,3 +179,9 @@ Proof.
   - destruct (split_pos i r) as [[[p' e'] q']|] eqn:E; [|discriminate]. inversion H; subst.
     rewrite (IH _ _ _ _ E). auto.
 Qed.
+Lemma count_flat_own_last b (f : elem -> list blk) own l : count b (flat_map f (own_last own l)) = count b (flat_map f l).
+Proof.
+  unfold own_last. destruct own as [i|]; [|reflexivity].
+  destruct (split_pos i l) as [[[p e] q]|] eqn:S; [|reflexivity].
+  apply split_pos_eq in S. subst l. rewrite !count_flat_app, !count_flat_cons. cbn [flat_map]. rewrite count_nil. lia.
+Qed.
